@@ -14,6 +14,7 @@ import (
 	"fmt"
 	"io"
 	"log/slog"
+	"runtime"
 	"runtime/debug"
 	"sort"
 	"strings"
@@ -40,29 +41,49 @@ func TestWorker(t *testing.T) {
 	})
 }
 
-// simWriter is the shared destination.  Its buffer is protected by nothing
-// but the handler's own mutex, so the race detector sees a missing mutex.
+// simWriter is the shared destination.  The bytes are collected by the
+// scheduler (each Write hands over copies), so the harness itself shares no
+// memory between tasks; a missing mutex in the handler shows as overlapping
+// Write calls and as a race inside the shared json.Encoder.
 type simWriter struct {
 	k       *kernel.Kernel
-	buf     []byte
-	inWrite bool // scheduler-side
+	buf     []byte // scheduler-side
+	inWrite bool   // scheduler-side
+	writes  int    // scheduler-side
+	panicAt int    // scheduler-side: index of the Write that panics, -1 none
 }
+
+// errWriterPanic is what the writer panics with when told to fail that way.
+var errWriterPanic = fmt.Errorf("verif: the writer panics")
 
 func (w *simWriter) Write(p []byte) (int, error) {
 	k := w.k
-	k.Ask("writer.begin", func() any {
+	half := len(p) / 2
+	first := append([]byte(nil), p[:half]...)
+	second := append([]byte(nil), p[half:]...)
+	fail := k.Ask("writer.begin", func() any {
 		if w.inWrite {
 			k.Fail("overlapping-write", "JSONHybridHandler.Handle", "a Write to the shared writer began while another one was in progress")
 		}
+		w.writes++
+		if w.writes-1 == w.panicAt {
+			return true
+		}
 		w.inWrite = true
+		w.buf = append(w.buf, first...)
 
-		return nil
-	})
-	half := len(p) / 2
-	w.buf = append(w.buf, p[:half]...)
+		return false
+	}).(bool)
+	if fail {
+		// A fault of the environment: this record's line is lost, every later
+		// record must still come out (the handler must not stay locked).
+		panic(errWriterPanic)
+	}
 	k.Yield("writer.mid")
-	w.buf = append(w.buf, p[half:]...)
-	k.Tell("writer.end", func() { w.inWrite = false })
+	k.Tell("writer.end", func() {
+		w.buf = append(w.buf, second...)
+		w.inWrite = false
+	})
 
 	return len(p), nil
 }
@@ -78,8 +99,29 @@ var keyPool = []string{"k", "key two", "a.b", "q\"k", "", "n\nk", "ü", "level",
 
 var levels = []slog.Level{slog.LevelDebug, slog.LevelInfo, slog.LevelWarn, slog.LevelError, slog.Level(-8), slog.Level(2), slog.Level(5), slog.Level(7), slog.Level(9), slog.Level(12)}
 
-func genAttr(tp *kernel.Tape, depth int) slog.Attr {
+// phaseBox and phased: a slog.LogValuer whose value changes after the
+// handler tree has been built (phase 0 while deriving, 1 while handling), as a
+// value that reports the current state of something does.
+type phaseBox struct{ phase int }
+
+type phased struct {
+	box  *phaseBox
+	a, b string
+}
+
+func (p phased) LogValue() slog.Value {
+	if p.box.phase == 0 {
+		return slog.StringValue(p.a)
+	}
+
+	return slog.StringValue(p.b)
+}
+
+func genAttr(tp *kernel.Tape, depth int, ph *phaseBox) slog.Attr {
 	key := keyPool[tp.Choose(len(keyPool))]
+	if tp.Bool(1, 12) {
+		return slog.Any(key, phased{box: ph, a: "state=starting", b: "state=running"})
+	}
 	switch tp.Choose(8) {
 	case 0:
 		return slog.Int(key, tp.Choose(2000)-1000)
@@ -93,7 +135,7 @@ func genAttr(tp *kernel.Tape, depth int) slog.Attr {
 		if depth < 2 {
 			var as []any
 			for n := tp.Choose(3); n > 0; n-- {
-				as = append(as, genAttr(tp, depth+1))
+				as = append(as, genAttr(tp, depth+1, ph))
 			}
 
 			return slog.Group(key, as...)
@@ -135,7 +177,12 @@ func run(rc *kernel.RunCtx) {
 	k.KeepLog = rc.KeepLog
 	k.EnablePool(rc.Stats)
 
-	w := &simWriter{k: k}
+	w := &simWriter{k: k, panicAt: -1}
+	if tp.Bool(1, 12) {
+		w.panicAt = tp.Choose(6)
+		rc.Stats.Fault("writer-panic-armed")
+	}
+	ph := &phaseBox{}
 
 	// Options.
 	var opts *slog.HandlerOptions
@@ -150,6 +197,9 @@ func run(rc *kernel.RunCtx) {
 		if tp.Bool(2, 3) {
 			cfgLevel = []slog.Level{slog.LevelDebug, slog.LevelInfo, slog.LevelWarn, slog.LevelError, slog.Level(-8), slog.Level(6)}[tp.Choose(6)]
 			opts.Level = cfgLevel
+		}
+		if tp.Bool(1, 4) {
+			opts.AddSource = true
 		}
 		if tp.Bool(1, 6) {
 			// A ReplaceAttr that elides all built-in attributes: a record
@@ -203,7 +253,7 @@ func run(rc *kernel.RunCtx) {
 	genAttrs := func() []slog.Attr {
 		var as []slog.Attr
 		for n := tp.Range(1, 3); n > 0; n-- {
-			as = append(as, genAttr(tp, 0))
+			as = append(as, genAttr(tp, 0, ph))
 		}
 
 		return as
@@ -214,6 +264,7 @@ func run(rc *kernel.RunCtx) {
 		nodes = append(nodes, derive(parent, genAttrs()))
 	}
 	nStatic := len(nodes)
+	ph.phase = 1 // from here on (predictions, handling) the phased values have changed
 	k.Logf("config level=", kernel.Itoa(int(cfgLevel)), " opts=", btoa(opts != nil), " handlers=", kernel.Itoa(nStatic))
 
 	ctx := context.Background()
@@ -275,7 +326,11 @@ func run(rc *kernel.RunCtx) {
 				msg = hugeMsg
 				rc.Stats.Probe("huge-record")
 			}
-			r := slog.NewRecord(t0, lvl, msg, 0)
+			pc := uintptr(0)
+			if opts != nil && opts.AddSource && tp.Bool(3, 4) {
+				pc = herePC()
+			}
+			r := slog.NewRecord(t0, lvl, msg, pc)
 			if withID {
 				r.AddAttrs(slog.Int("id", st.id))
 			}
@@ -284,7 +339,7 @@ func run(rc *kernel.RunCtx) {
 				nAttrs = 0
 			}
 			for a := nAttrs; a > 0; a-- {
-				r.AddAttrs(genAttr(tp, 0))
+				r.AddAttrs(genAttr(tp, 0, ph))
 			}
 			st.rec = r
 			if st.node >= 0 {
@@ -327,6 +382,12 @@ func run(rc *kernel.RunCtx) {
 				rec := st.rec.Clone()
 				want := st.want
 				err, pv, stack := safeHandle(h, ctx, rec)
+				if pv == error(errWriterPanic) {
+					// The injected fault: no line for this record.
+					k.Tell("writer-panicked", func() { rc.Stats.Fault("writer-panicked") })
+
+					continue
+				}
 				if pv != nil {
 					k.Report("panic", kernel.PanicSite(stack), fmt.Sprintf("Handle panicked: %v\n%s", pv, stack))
 
@@ -360,6 +421,15 @@ func run(rc *kernel.RunCtx) {
 		return
 	}
 	checkOutput(rc, w.buf, done)
+}
+
+// herePC returns a program counter inside this package, as slog.Logger
+// records the caller's.
+func herePC() uintptr {
+	var pcs [1]uintptr
+	runtime.Callers(1, pcs[:])
+
+	return pcs[0]
 }
 
 func safeHandle(h slog.Handler, ctx context.Context, r slog.Record) (err error, pv any, stack string) {
